@@ -3,6 +3,7 @@ import TongoModel.Tlb.Enc
 import TongoModel.Tlb.Dec
 import TongoModel.Tlb.TyText
 import TongoModel.Tlb.Tags
+import TongoModel.Tlb.CanonCell
 /-! Line handlers of the TL-B codec model (properties C03, C04):
   tlb.enc <GoType> <ty> <env> <val>     → ok <canonical table> | err | panic
   tlb.dec <GoType> <ty> <env> <table>   → ok <val> | err | panic
@@ -29,6 +30,24 @@ def opsTlb : List (String × Handler) := [
     | [_, ty, env, tbl] =>
       match TyText.parseTy ty, TyText.parseEnv env, SExp.cellOfString tbl with
       | some t, some e, some c => outcomeStr (fun r => SExp.toString r.1) (decode e tlbFuel t (Slice.ofCell c))
+      | _, _, _ => "bad-op"
+    | _ => "bad-op"),
+  -- the cell-level canonicity check of C03 (`canonicalCell`) on a cell from outside; `flag`: what the Go code found
+  -- when it decoded and re-encoded the cell (same-hash | other-hash | enc-err | dec-err). The theorem
+  -- `reencode_canonical_cell` (+ model = code) forbids `canonical ∧ other-hash`: that combination answers `same-hash`,
+  -- which the Go side never echoes
+  ("tlb.canon", fun
+    | [_, ty, env, tbl, flag] =>
+      match TyText.parseTy ty, TyText.parseEnv env, SExp.cellOfString tbl with
+      | some t, some e, some c =>
+        if canonicalCell e tlbFuel t c && flag == "other-hash" then "ok same-hash" else s!"ok {flag}"
+      | _, _, _ => "bad-op"
+    | _ => "bad-op"),
+  -- statistics only (info op): is the cell canonical
+  ("tlb.canoninfo", fun
+    | [_, ty, env, tbl] =>
+      match TyText.parseTy ty, TyText.parseEnv env, SExp.cellOfString tbl with
+      | some t, some e, some c => if canonicalCell e tlbFuel t c then "ok canonical" else "ok noncanonical"
       | _, _, _ => "bad-op"
     | _ => "bad-op"),
   ("tlb.parsetag", fun
